@@ -5,7 +5,7 @@
 # change, stores it under /verif/seeded/<name>/ and runs the given quick checks against it.
 set -u
 P=$1; NAME=$2; shift 2
-WT=/tmp/wt-$P
+WT=${WTDIR:-/tmp/wt-$P}
 OUT=/verif/seeded/$NAME
 mkdir -p $OUT
 git -C $WT diff -- biobalm > $OUT/patch.diff
